@@ -5,6 +5,7 @@
 package fixture
 
 import (
+	"encoding/json"
 	"net/http"
 	"os"
 	"sort"
@@ -51,4 +52,15 @@ func Checked(v interface{}) string {
 		return v.(string)
 	}
 	return ""
+}
+
+type doc struct{ Files map[string]string }
+
+// DecodesPtr leaves p nil for the document "null" and reports no error.
+func DecodesPtr(b []byte) (*doc, error) {
+	var p *doc
+	if err := json.Unmarshal(b, &p); err != nil {
+		return nil, err
+	}
+	return p, nil
 }
